@@ -13,7 +13,9 @@ import weakref
 
 import anyio
 from guard import guarded_run  # noqa: E402
-from asphalt.core import Context, current_context, inject, resource  # noqa: E402
+from contextlib import AsyncExitStack  # noqa: E402
+
+from asphalt.core import Context, NoCurrentContext, current_context, inject, resource  # noqa: E402
 
 
 class A:
@@ -150,7 +152,65 @@ async def overlapping_injected_calls():
                f"second got a.tag={getattr(a_, 'tag', None)} b.tag={getattr(b_, 'tag', None)} (own: 2, static2)"
 
 
-SCENARIOS = {f.__name__: f for f in (failed_generation_with_waiters, inject_across_short_lived_contexts,
+async def leaked_inner_context():
+    """C12: leaving a block restores what was current before entry -- also when a context entered inside it (by
+    hand) was never left: that is reported, and the current context is still restored"""
+    out = []
+    for depth in (0, 1):
+        async with AsyncExitStack() as stack:
+            before = None
+            if depth:
+                before = await stack.enter_async_context(Context())
+            reported = False
+            try:
+                async with Context():
+                    await Context().__aenter__()          # never left
+            except RuntimeError as e:
+                reported = "stack corruption" in str(e)
+            try:
+                now = current_context()
+            except NoCurrentContext:
+                now = None
+            out.append((depth, reported, now is before))
+    ok = all(rep and same for _, rep, same in out)
+    return ok, f"(depth, open child reported, current context restored): {out}"
+
+
+async def parent_left_before_child():
+    """C12: a task that leaves its own block gets back what it had before, also when the parent of that block's
+    context was (wrongly, and reported as such) left first by another task"""
+    res = {}
+    go_leave_parent, child_entered, parent_left = anyio.Event(), anyio.Event(), anyio.Event()
+
+    async def task_b(parent):
+        async with Context() as own:                      # B's own base context
+            async with Context(parent):
+                child_entered.set()
+                await parent_left.wait()
+            try:
+                res["restored"] = current_context() is own
+            except NoCurrentContext:
+                res["restored"] = False
+            async with Context():
+                pass
+            try:
+                res["restored_again"] = current_context() is own
+            except NoCurrentContext:
+                res["restored_again"] = False
+
+    async with anyio.create_task_group() as tg:
+        try:
+            async with Context() as p:
+                tg.start_soon(task_b, p)
+                await child_entered.wait()
+        except RuntimeError as e:
+            res["reported"] = "stack corruption" in str(e)
+        parent_left.set()
+    ok = res.get("reported") is True and res.get("restored") is True and res.get("restored_again") is True
+    return ok, f"{res}"
+
+
+SCENARIOS = {f.__name__: f for f in (leaked_inner_context, parent_left_before_child,failed_generation_with_waiters, inject_across_short_lived_contexts,
                                      inherited_context_outlives_block, overlapping_injected_calls)}
 
 
